@@ -243,6 +243,8 @@ class Explorer:
                 cands = [x.hi, int("55" * 16, 16) & ((1 << bits) - 1), (1 << 53) + 1, x.hi - 1, x.lo, (1 << (bits - 1))]
                 # ... and the byte boundaries (2^8k, 2^8k - 1, 2^8k + 1): where float rounding, byte counts computed from
                 # logarithms or bit lengths, and sign bits go wrong
+                # small magnitudes on both sides of zero (negative indices, off-by-one around the origin)
+                cands += [-1, 0, 1, -2, 2, -3, 3, -4, 4, -5, 5]
                 for k in range(8, bits + 1, 8):
                     cands += [1 << k, (1 << k) - 1, (1 << k) + 1]
             else:
